@@ -39,17 +39,18 @@ class Netmap(V.Family):
                 "quick": dict(mc=[("NetmapMC.tla", "NetmapRing_quick.cfg")], mc_timeout=600,
                               sim=("NetmapMC.tla", "NetmapRing_sim.cfg", 40, 46), sim_keep=40, nrand=15, shards=6,
                               env=dict(VERIF_NRING=25, VERIF_NSYS=150)),
-                "thorough": dict(mc=[("NetmapMC.tla", "NetmapRing_thorough.cfg"), ("NetmapMC.tla", "Netmap_quick.cfg")],
+                "thorough": dict(mc=[("NetmapMC.tla", "NetmapRing_thorough.cfg"), ("NetmapMC.tla", "NetmapSubs_quick.cfg")],
                                  mc_timeout=3000,
                                  sim=("NetmapMC.tla", "NetmapRing_sim.cfg", 600, 46), sim_keep=600, nrand=200, shards=14,
                                  env=dict(VERIF_NRING=600, VERIF_NSYS=-2), drive_timeout=3400, monitor_timeout=3400),
             }
         else:
             self.tiers = {
-                "quick": dict(mc=[("NetmapMC.tla", "Netmap_quick.cfg")], mc_timeout=900,
+                "quick": dict(mc=[("NetmapMC.tla", "Netmap_quick.cfg"), ("NetmapMC.tla", "NetmapDeep_quick.cfg"),
+                                  ("NetmapMC.tla", "NetmapSubs_quick.cfg")], mc_timeout=900,
                               sim=("NetmapMC.tla", "Netmap_sim.cfg", 80, 31), sim_keep=80, nrand=80, shards=6,
                               env=dict(VERIF_NRING=6, VERIF_NSYS=12)),
-                "thorough": dict(mc=[("NetmapMC.tla", "Netmap_thorough.cfg")], mc_timeout=3000,
+                "thorough": dict(mc=[("NetmapMC.tla", "Netmap_thorough.cfg"), ("NetmapMC.tla", "NetmapSubs_thorough.cfg")], mc_timeout=3000,
                                  sim=("NetmapMC.tla", "Netmap_sim.cfg", 2500, 31), sim_keep=2500, nrand=4000, shards=14,
                                  env=dict(VERIF_NRING=100, VERIF_NSYS=-1), drive_timeout=3400, monitor_timeout=3400),
             }
